@@ -11,8 +11,30 @@ def design(ck, tier):
     ck.add_tlc(r, "Limiter exhaustive: 2 services x 2 ips, Burst 2, Q 2, with Advance")
 
 
+def unbounded(ck, tier):
+    """the token-bucket argument as an inductive invariant (LimiterInd.tla), discharged by Apalache for an unbounded clock and
+    arbitrarily long histories; thorough tier only (the inductive step takes minutes). A tool failure is a note, not a verdict;
+    a refuted obligation means the specification's argument is broken: exit 2."""
+    if tier != "thorough":
+        return
+    import apalache
+    for what, init, inv, length, tmo in (("Init => IndInv", "Init", "IndInv", 0, 600), ("IndInv /\\ Next => IndInv'", "IndInit", "IndInv", 1, 2400),
+                                         ("IndInv => AtMostBurstPerWindow", "IndInit", "AtMostBurstPerWindow", 0, 600)):
+        outcome, detail, wall = apalache.check("LimiterInd", init, inv, length, timeout=tmo)
+        if outcome == "refuted":
+            raise lib.Infra("Apalache refutes %s in LimiterInd.tla:\n%s" % (what, detail))
+        ck.notes.append("Apalache (unbounded time): %s: %s in %.0f s%s" % (what, "proved" if outcome == "ok" else "NOT ESTABLISHED (tool unavailable or timed out)",
+                                                                           wall, "" if outcome == "ok" else " - " + detail[-200:]))
+    # non-vacuity: a bound of Burst - 1 must be refuted from the same arbitrary state
+    outcome, detail, wall = apalache.check("LimiterInd", "IndInit", "TooStrong", 0, timeout=600)
+    ck.notes.append("Apalache: the too-strong bound (Burst - 1 per window) is %s" % {"refuted": "refuted, as it must be", "ok": "NOT refuted: IndInit is vacuous",
+                                                                                    "unavailable": "not checked (tool unavailable)"}[outcome])
+    if outcome == "ok":
+        raise lib.Infra("LimiterInd!IndInit admits no state with Burst responses in one window: the inductive check is vacuous")
+
+
 def generate(tier):
-    n = 150 if tier == "quick" else 1500
+    n = 150 if tier == "quick" else 6000
     r = lib.tlc("MC_Limiter", simulate=n, depth=14, tlc_seed=lib.seed(), workers=1, timeout=300)
     if r.rc not in (0,) or r.violated:
         lib.tlc_must_pass(r, "Limiter generation")
@@ -131,7 +153,7 @@ def run(tier, lab):
     if not scs:
         raise lib.Infra("TLC produced no scenarios")
     expected = {s["id"]: s["steps"] for s in scs}
-    random_n = 40 if tier == "quick" else 400
+    random_n = 40 if tier == "quick" else 2000
     results = exec_scenarios(lab, scs, random_n, 200)
     nsteps = 0
     distinct = set()
@@ -196,6 +218,7 @@ def run(tier, lab):
         "byte templates per request kind (harness/cmd/lab/c10.go) are the concretisation of MC_LimiterTables",
         "datagrams are delivered as listener.DummyUDPConn values exactly as listener/socket does",
     ]
+    unbounded(ck, tier)
     return ck.finish()
 
 
